@@ -312,27 +312,27 @@ pub fn property() -> Property {
                 rule: "generated pairs of vectors of up to 3000 elements each (lengths bracketed around powers of two) over universes of 64 to 10^6 values, the second operand independent, sharing the greatest/least element, contained, containing or disjoint; From<Vec>, union both ways, re-union vs BTreeSet and ~80 queries around members and ends; non-trivial = interleaving operands with more than 64 distinct elements in total",
                 f: random_large,
                 text_f: None,
-                cases_quick: 3_000,
+                cases_quick: 6_000,
                 cases_thorough: 60_000,
-                max_choices: 40,
+                max_choices: 48,
             },
             SubCheck {
                 name: "random_u8",
                 rule: "generated pairs of vectors of length <= 200 over alphabets of 4/11/51/256 values, all queries; non-trivial = interleaving operands with more than 12 elements in total",
                 f: random_u8,
                 text_f: None,
-                cases_quick: 20_000,
+                cases_quick: 60_000,
                 cases_thorough: 400_000,
-                max_choices: 420,
+                max_choices: 440,
             },
             SubCheck {
                 name: "random_str",
                 rule: "generated pairs of Arc<str> vectors (comment-like strings incl. empty, non-ASCII, prefixes), union/contains/find_first_following/to_ref/Into<Vec>; non-trivial = interleaving operands",
                 f: random_str,
                 text_f: None,
-                cases_quick: 20_000,
+                cases_quick: 60_000,
                 cases_thorough: 300_000,
-                max_choices: 24,
+                max_choices: 28,
             },
             SubCheck {
                 name: "pairs_text",
